@@ -501,7 +501,8 @@ class Concatenator(Group):  # pylint: disable=too-many-public-methods
             del parent_attr[f"Property:{name}"]
 
         elif isinstance(entity, ConcatenatedObject):
-            # First remove the children
+            # First remove the children, including data not loaded yet
+            entity._fetch_concatenated_children()  # pylint: disable=protected-access
             entity.remove_children(entity.children.copy())
             for field in ("surveys", "trace", "property_groups"):
                 self.update_array_attribute(entity, field, remove=True)
